@@ -1,4 +1,5 @@
 import LentilVerif.Gen.Effects
+import LentilVerif.Gen.FourierWiring
 /-! Heap model for C10 (purity): cells with abstract contents, objects that captured caller arrays, the global NumPy
 generator as one cell and the `_dft2_coords` cache as a partial map. An *op* is one public API call together with the
 binding of its parameter slots to cells; **what an op may write is read off the generated effect table**
@@ -74,7 +75,10 @@ def capturedBy (tbl : List Gen.EffRow) (op : Op) : List Cell :=
 /-- `arange(n) - floor(n/2)` -/
 def cc (n i : Int) : Int := i - n / 2
 /-- what `_dft2_coords(m, n, M, N)` computes -/
-def freshCoords (k : Key) : Coords := (cc k.1, cc k.2.1, cc k.2.2.1, cc k.2.2.2)
+def freshCoords (k : Key) : Coords :=
+  -- the four vectors as `_dft2_coords` builds them: regenerated from fourier.py (Gen/FourierWiring.lean, `fwCoord0..3`)
+  (Gen.fwCoord0 k.1 k.2.1 k.2.2.1 k.2.2.2, Gen.fwCoord1 k.1 k.2.1 k.2.2.1 k.2.2.2,
+   Gen.fwCoord2 k.1 k.2.1 k.2.2.1 k.2.2.2, Gen.fwCoord3 k.1 k.2.1 k.2.2.1 k.2.2.2)
 
 def step (tbl : List Gen.EffRow) (s : State) (op : Op) : State :=
   let W := writeCells tbl s op
